@@ -273,7 +273,7 @@ def default_for(rng, T, d, cross=False, shape=None):
         if other == "d":
             w = e["width"]
             raw = rng.randrange(0, max((1 << w) - 1, 1))
-            return dtok(float(raw + e["ref"]) + rng.choice([0.0, 0.0, 0.25, 0.5]))
+            return dtok(float(raw + e["ref"]))        # integral: what a fraction means on an integer-typed element is the encoder's matter (C08)
         return num_value(rng, dict(e, scale=0) if nt == "d" else e, other, "rand")
     return num_value(rng, e, nt, shape if shape not in STR_SHAPES else None)
 
@@ -601,6 +601,12 @@ def run(rep, tier, seed, replay=None):
             cases.append(dict(line=case_line(4, [(205255, [v]), (1001, [])]), kind="T", ed=4, items=[(205255, [v]), (1001, [])], src="op205_long"))
     kf = {f.get("match"): f for f in vlib.known_findings("C18")}
     lines = [c["line"] for c in cases]
+    # which text format does this tree write?  (Tmpl.v models the code as it stands, Tmpl2.v the corrected format of
+    # proposed_fixes/C18_template_text.md; the property oracle below does not depend on this choice)
+    rc, pout, perr = vlib.run_cases(exe, "T 4 2 1001:i1,i2 1002\n", timeout=120, env=env)
+    ph = parse_c(pout[0])["head"] if pout and pout[0].startswith("T ") else {}
+    ptxt = bytes.fromhex(ph.get("text", "")) if ph.get("text", "-") != "-" else b""
+    fmt = "legacy" if b"VALUES=" in ptxt else "fixed"
     # ---- library: restart behind a case that kills the harness, so that every case is tried
     couts = []
     crashed = {}
@@ -619,7 +625,7 @@ def run(rep, tier, seed, replay=None):
             break
     # ---- model
     rc, mo, merr = vlib.sh("ulimit -s unlimited 2>/dev/null || ulimit -s 1000000; exec %s" % drv,
-                           input=("\n".join(ctx.tlines + lines) + "\n").encode("latin-1"), timeout=3000)
+                           input=("\n".join(ctx.tlines + ["FORMAT " + fmt] + lines) + "\n").encode("latin-1"), timeout=3000)
     if rc != 0:
         raise RuntimeError("model driver failed: " + merr[-2000:])
     mouts = mo.split("\n")
@@ -700,13 +706,14 @@ def run(rep, tier, seed, replay=None):
             j = next((k for k, (a, b) in enumerate(zip(cc, mline)) if a != b), min(len(cc), len(mline)))
             rep.violation("C18: correspondence Tmpl.v <-> bufr_template.c broken (the property oracle accepts the library's behaviour): at column %d library '%s' model '%s'  [case: %s]" % (
                 j, cc[max(0, j - 30):j + 50], mline[max(0, j - 30):j + 50], key[:300]),
-                dict(robj, correspondence="Tmpl.save_text/load_text/copy/tcompare/gexpand vs bufr_save_template/bufr_load_template/bufr_copy_template/bufr_compare_template"), no_input=True)
+                dict(robj, text_format=fmt, correspondence="Tmpl(2).save_text/load_text/copy/tcompare/gexpand vs bufr_save_template/bufr_load_template/bufr_copy_template/bufr_compare_template"), no_input=True)
             nviol += 1
         if nviol > 12:
             break
     if not proved and not rep.violations:
         rep.violation("C18: proof obligations no longer check and the correspondence run found no failing input", getattr(rep, "proof_broken", {}), no_input=True)
     feat.update({"finding_" + k: v for k, v in nfind.items()})
+    feat["text_format_" + fmt] = 1
     rep.cov["traces_validated_against_impl"] = len(cases)
     rep.cov["rule"] = ("templates of the C01/C10 grammar (elements, Table D, fixed and delayed replication, operators; depth <= 3; editions 2-5) without defaults, with one default per "
                        "descriptor of the element's own value type (INT32, INT64, FLT64 on and off the element's grid, STRING in 8 shapes), with 2-4 defaults, with defaults of a foreign type; "
